@@ -64,6 +64,8 @@ class Lower:
         self.where = where
         self.inline = {}          # name -> (lowered expression, set of variables it reads)
         self.assigned = set()     # variables assigned by the statements lowered so far
+        self.ref_alias = {}       # name -> AST of the lvalue it is a reference to (auto& x = buckets[i];)
+        self.hash_ast = None      # AST of the expression fast_perfect_hash::hash_type_id(type) returns, for inlining calls
 
     def bad(self, what, node):
         raise mc.Unsupported('%s: %s: %s' % (self.where, what, mc.show(node)))
@@ -78,6 +80,8 @@ class Lower:
         if k == 'bool':
             return '(EConst %d)' % (1 if x[1] else 0)
         if k == 'id':
+            if x[1] in self.ref_alias:
+                return self.e(self.ref_alias[x[1]])
             if x[1] in self.inline:
                 return self.inline[x[1]][0]
             if x[1] in VARS:
@@ -97,6 +101,13 @@ class Lower:
             return '(EBucket %s)' % self.e(x[2])
         if k == 'call' and x[1] == ('id', 'uniform_dist') and x[2] == [('id', 'rnd')]:
             return 'EDrawn'
+        if k == 'call' and x[1] == ('id', 'hash_type_id') and len(x[2]) == 1 and self.hash_ast is not None:
+            # a call of the class's own hash_type_id(type): its (translated) body with the argument for `type`
+            sub = Lower(self.where + ' / hash_type_id')
+            sub.inline = dict(self.inline)
+            sub.ref_alias = dict(self.ref_alias)
+            sub.inline['type'] = (self.e(x[2][0]), set(re.findall(r'EVar (V\w+)', self.e(x[2][0]))))
+            return sub.e(self.hash_ast)
         if k == 'call' and x[1] in (('id', 'std::min'), ('id', 'std::max')) and len(x[2]) == 2:
             return '(%s %s %s)' % ('EMin' if x[1][1] == 'std::min' else 'EMax', self.e(x[2][0]), self.e(x[2][1]))
         if k == 'bin':
@@ -144,7 +155,18 @@ class Lower:
                     continue
                 if name == 'rnd':
                     continue
-                if name in INLINED and st[1] == 'auto' and init is not None and name not in self.inline:
+                tyn = re.sub(r'\s+', ' ', st[1]).strip()
+                if tyn in ('auto &', 'const auto &') and init is not None and init[0] == 'index' and init[1] == ('id', 'buckets') \
+                        and name not in VARS and name not in self.ref_alias:
+                    # auto& x = buckets[i];  x stands for that element; sound while nothing the index reads is assigned (checked)
+                    low = self.e(init[2])
+                    self.ref_alias[name] = init
+                    self.inline['&' + name] = (low, set(re.findall(r'EVar (V\w+)', low)))
+                    continue
+                plain = tyn in ('auto', 'const auto', 'constexpr auto', 'const type_id', 'type_id', 'constexpr type_id',
+                                'const std::size_t', 'constexpr std::size_t')
+                if plain and init is not None and name not in self.inline and (name in INLINED or (name not in VARS and tyn != 'auto' and tyn != 'type_id')):
+                    # a single-assignment local (the loop's `type` / `index`, or any const / constexpr local): inlined
                     low = self.e(init)
                     self.inline[name] = (low, set(re.findall(r'EVar (V\w+)', low)))
                     continue
@@ -173,6 +195,8 @@ class Lower:
             l, r = e[2], e[3]
             if l[0] == 'id' and l[1] in VARS:
                 return ['(SSet %s %s)' % (VARS[l[1]], self.e(r))]
+            if l[0] == 'id' and l[1] in self.ref_alias:
+                l = self.ref_alias[l[1]]
             if l[0] == 'index' and l[1] == ('id', 'buckets'):
                 return ['(SSetBucket %s %s)' % (self.e(l[2]), self.e(r))]
         if e[0] == 'assign' and e[1] == '>>=' and e[2][0] == 'id' and e[2][1] in VARS:
@@ -213,13 +237,14 @@ def strip_block(b):
     return b[1] if b[0] == 'block' else [b]
 
 
-def translate_search(src, hook):
+def translate_search(src, hook, hash_ast=None):
     params, body, line = mc.find_function(src, r'\bvoid\s+fast_perfect_hash\s*<\s*Policy\s*>\s*::\s*hash_initialize\b', 'hash_initialize')
     if re.sub(r'\s+', '', params) != 'ForwardIteratorfirst,ForwardIteratorlast,std::vector<type_id>&buckets':
         raise mc.Unsupported('hash_initialize: parameter list changed: ' + params)
     ast = mc.parse_function_body(body, ('has_facet', 'uniform_int_distribution'))
     st = [x for x in ast[1] if x != ('using',)]
     L = Lower('hash_initialize')
+    L.hash_ast = hash_ast
     # --- split the top level: [pre...] halving-for [mid...] pass-for [error tail...]
     fors = [i for i, x in enumerate(st) if x[0] == 'for']
     if len(fors) != 2:
@@ -234,11 +259,14 @@ def translate_search(src, hook):
             seed = init[1][0][1]
     if seed is None:
         raise mc.Unsupported('hash_initialize: no `std::default_random_engine rnd(seed)` before the loops')
-    for x in mid:
-        if not (x[0] == 'decl' and x[1].replace(' ', '') == 'std::uniform_int_distribution<type_id>' and x[2] == [('uniform_dist', None)]):
-            raise mc.Unsupported('hash_initialize: unexpected statement between the two loops: ' + mc.show(x))
     P = {}
     P['hp_pre'] = L.block(pre)
+    for x in mid:
+        if x[0] == 'decl' and x[1].replace(' ', '') == 'std::uniform_int_distribution<type_id>' and x[2] == [('uniform_dist', None)]:
+            continue
+        if x[0] == 'decl' and L.simple(x) == []:
+            continue           # a const / constexpr local, inlined where it is used
+        raise mc.Unsupported('hash_initialize: unexpected statement between the two loops: ' + mc.show(x))
     # halving loop: for (auto size = E; size >>= 1;) BODY
     if not (halv[1] and halv[1][0] == 'decl' and halv[1][1] == 'auto' and len(halv[1][2]) == 1 and halv[1][2][0][0] == 'size'
             and halv[2] and halv[2][0] == 'assign' and halv[2][1] == '>>=' and halv[2][2] == ('id', 'size') and halv[3] is None):
@@ -286,6 +314,8 @@ def translate_search(src, hook):
     if len(ifs) != 1 or ib[ifs[0]][4] is not None:
         raise mc.Unsupported('hash_initialize: the id loop must contain exactly one if without else (the occupancy test)')
     LI = Lower('hash_initialize (id loop)')
+    LI.inline = dict(L.inline)
+    LI.hash_ast = L.hash_ast
     P['hp_id_pre'] = LI.block(ib[:ifs[0]])
     P['hp_id_cond'] = LI.c(ib[ifs[0]][2])
     then = strip_block(ib[ifs[0]][3])
@@ -326,8 +356,16 @@ def main():
     except OSError as e:
         die('cannot read %s: %s' % (SRC, e))
     try:
-        off, seed = translate_search(preprocess(raw, False), False)
-        on, seed2 = translate_search(preprocess(raw, True), True)
+        src0 = preprocess(raw, False)
+        cls_fast0 = src0[src0.index('struct yOMM2_API_gcc fast_perfect_hash'):]
+        cls_fast0 = cls_fast0[:mc.balanced(cls_fast0, cls_fast0.index('{'), '{', '}')]
+        params, body, _ = mc.find_function(cls_fast0, r'\bhash_type_id\b', 'fast_perfect_hash::hash_type_id')
+        hast = mc.parse_function_body(body)
+        if re.sub(r'\s+', '', params) != 'type_idtype' or len(hast[1]) != 1 or hast[1][0][0] != 'return':
+            raise mc.Unsupported('hash_type_id is no longer `return <expression of type>;`')
+        hash_ast = hast[1][0][1]
+        off, seed = translate_search(src0, False, hash_ast)
+        on, seed2 = translate_search(preprocess(raw, True), True, hash_ast)
         m = re.fullmatch(r'\(CAnd \(CNot \(CTruth \(EVar VFound\)\)\) \(CLt \(EVar VAttempts\) \(EConst (\d+)\)\)\)', off['hp_while_cond'])
         if not m:
             # any other shape: keep it, but then the hook variant must be literally the same with EBudget for one constant
